@@ -1,7 +1,7 @@
 (* Proofs about the multiplication / FMA transformations of Lib/Eft.v (property C20). *)
 From Coq Require Import ZArith List Bool String Reals Lia Lra.
 From Flocq Require Import Core Pff Pff2Flocq Pff2FlocqAux Mult_error Plus_error.
-From FpyV Require Import Num.RealFloat Lib.Eft Lib.EftProofs.
+From FpyV Require Import Num.RealFloat Lib.Eft Lib.EftReal Lib.EftProofs.
 Import ListNotations.
 Open Scope R_scope.
 Open Scope string_scope.
